@@ -122,8 +122,10 @@ CLAIMED = {
         text=("Frame::write and Stream::write are verified by Verus against an ABSTRACT BitSink whose every operation may return Err: no "
               "unwrap/expect on a fallible sink result is provable, the error is returned, and the sink content stays a prefix of the "
               "correct bitstream (for any number of subframes / metadata blocks / frames)."),
-        note="Component writers below the frame level are covered through their contracts (append-only); a user sink is assumed append-only on error as its trait documentation implies.",
-        technique=VERUS,
+        note=("Sub-frame writers (CONSTANT/VERBATIM/FIXED/LPC): Verus subframe_write, any size. STREAMINFO / metadata block / unknown body / "
+              "frame header / residual writers: Kani units against a sink that fails at its k-th primitive operation, k symbolic (bounded "
+              "shapes). A user sink is assumed append-only on error as its trait documentation implies."),
+        technique=VERUS + " + " + KANI,
         design_ref="6 C12"),
     "C13": dict(
         category="proof",
@@ -131,7 +133,9 @@ CLAIMED = {
               "entries); merge == a+b-4 saturating (complete); finest_partition_order == largest admissible order (Kani function contract); "
               "from_errors exact-or-saturated for residuals up to 2^28-2^24 (bounded n); the chosen parameters reach the Residual unchanged "
               "(Verus)."),
-        note="Known finding F-C13-from-errors-wrap (u32 lane sums wrap for larger folded residuals); PrcParameterFinder::find's merge loop itself is not under contract (composition argument only).",
+        note=("Known finding F-C13-from-errors-wrap (u32 lane sums wrap for larger folded residuals). PrcParameterFinder::find: Verus prc_find "
+              "(every order evaluated, cheapest returned, any number of partitions). Call sites: encode_residual and the bit-count order "
+              "selection hand the search the CONFIGURED maximum for every sample width and apply what it returned (Kani)."),
         technique=KANI + " + " + VERUS,
         design_ref="6 C13"),
     "C15": dict(
@@ -151,11 +155,12 @@ CLAIMED = {
         text=("Two clauses are decided: (1) no panic of each sub-parser on ARBITRARY input bytes of fixed small length with arbitrary "
               "in-range parameters (utf8_code, block_size_code + block_size(), sample_rate_code for every tag, subframe_header, constant, "
               "verbatim, quantized_parameters, stream_info, metadata_block, frame_header with and without CRC, u_to_i for every width); "
-              "(2) frame_header(true) returns Ok only if the stored CRC-8 equals the checksum of the consumed bytes."),
-        note=("Bounded in input length (8 header bytes, 34 STREAMINFO bytes, ...), complete in byte values.  Not decided: 'an altered "
-              "frame is never accepted with different audio' (a probabilistic fact about 16-bit coincidences), the frame CRC-16 and every "
-              "recogniser built on parser::residual (intractable for Kani; `impl FnMut`-returning parsers cannot be stubbed)."),
-        technique=KANI,
+              "(2) frame_header(true) returns Ok only if the stored CRC-8 equals the checksum of the consumed bytes; plus the residual "
+              "recogniser parser::residual panic-free for ANY input, block size and warm-up (Verus, nom primitives as assumed contracts)."),
+        note=("Kani units bounded in input length (8 header bytes, 34 STREAMINFO bytes, ...), complete in byte values.  Not decided: 'an altered "
+              "frame is never accepted with different audio' (a probabilistic fact about 16-bit coincidences), the frame CRC-16 comparison and "
+              "the composition subframe -> fixed_lpc/lpc -> residual -> frame (intractable for Kani; `impl FnMut`-returning parsers cannot be stubbed)."),
+        technique=KANI + " + " + VERUS,
         design_ref="6 C16"),
     "C17": dict(
         category="proof",
